@@ -3,6 +3,7 @@ package main
 import (
 	"flag"
 	"fmt"
+	"io"
 	"math/rand"
 	"path/filepath"
 	"reflect"
@@ -303,10 +304,14 @@ func init() {
 			type hinfo struct{ prog string }
 			nextH := 1
 			progHandle := make([]int, len(progs))
+			progParent := make([]int, len(progs)) // the handle the program's last step was applied to
+			lastIsSub := make([]bool, len(progs))
 			for pi, prog := range progs {
 				cur := 0
 				curScope := n.root
 				for _, st := range prog {
+					progParent[pi] = cur
+					lastIsSub[pi] = st.sub
 					h := nextH
 					nextH++
 					if st.sub {
@@ -411,6 +416,46 @@ func init() {
 					for _, c := range n.collect() {
 						if c.Kind == "counter" {
 							tr.Emit(M{"e": "metric", "h": h, "kind": "counter", "name": "b", "path": path, "got_name": t.abst(c.Name), "got_tags": t.abstMap(c.Tags), "after_mutation": true})
+							evals++
+						}
+					}
+				}
+			}
+			// "the tags delivered for one scope never change over its lifetime": some scopes obtained with SubScope (which
+			// add no tags of their own) are closed and retired by a report pass; what their parents, and every other
+			// scope that is still alive, deliver afterwards still follows their derivation
+			if path != "snap" {
+				closedObj := map[tally.Scope]bool{}
+				var parents []int
+				for pi := range progs {
+					h := progHandle[pi]
+					if h < 0 || !lastIsSub[pi] || pi%3 != 1 || n.handles[h] == n.root || closedObj[n.handles[h]] {
+						continue
+					}
+					if cl, ok := n.handles[h].(io.Closer); ok {
+						cl.Close()
+						closedObj[n.handles[h]] = true
+						parents = append(parents, progParent[pi])
+					}
+				}
+				n.collect() // the pass that retires the closed scopes
+				again := append([]int{0}, parents...)
+				for pi := 0; pi < len(progs); pi += 4 {
+					if progHandle[pi] >= 0 {
+						again = append(again, progHandle[pi])
+					}
+				}
+				seenH := map[int]bool{}
+				for _, h := range again {
+					if seenH[h] || closedObj[n.handles[h]] {
+						continue
+					}
+					seenH[h] = true
+					n.collect()
+					n.handles[h].Counter(t.conc("b")).Inc(1)
+					for _, c := range n.collect() {
+						if c.Kind == "counter" {
+							tr.Emit(M{"e": "metric", "h": h, "kind": "counter", "name": "b", "path": path, "got_name": t.abst(c.Name), "got_tags": t.abstMap(c.Tags), "after_close": true})
 							evals++
 						}
 					}
